@@ -97,6 +97,11 @@ CHECKS = {
     technique="SMT translation validation of expand_intermediates / factor_intermediates / reduce_expr under the valuation in which every registered intermediate tensor takes the value of its fully expanded registered definition (evaluated from expand_itmd); two-stage z3 decision over integrals, orbital energies, free tensors and target assignments",
     text="Products of an intermediate tensor with free tensors (any subset of indices contracted, optional Fock factor and second intermediate) and library results (E(2), E(3), second-order density, ip h/h and pp ph/ph second-order blocks, real and Fock-diagonalised); all requested subsets / types / max_order for factorisation; fully vs once expanded.",
     note="Model 2o2v; second-order intermediates (third order and quadruples outside); cases in which the library does not finish within the per-case limit give no verdict (counted)."),
+ "C15": dict(
+    level=TV, design="2/C15", engine="tvsmt",
+    technique="SMT translation validation of integrate_spin / transform_to_spatial_orbitals (expand_eri on/off, restricted) in a spatial x {alpha,beta} orbital model: the spin-orbital input evaluated at the requested target spins and the spin-labelled output share the same unknowns (Coulomb integrals with 8-fold symmetry defining <pq||rs>, spin-conserving amplitudes); blocks not reported by allowed_spin_blocks are shown identically zero by z3",
+    text="Generated spin-orbital expressions (V, t amplitudes, ADC vectors, unknown tensors, deltas) with random target order and spins; restricted variant on integral / symbolic-denominator expressions; expression-level and per-intermediate allowed spin blocks.",
+    note="Models <=2o2v spatial x spin. restricted=True only for amplitude-free expressions (no single-valued reading of 'alpha and beta amplitudes coincide' after renaming). allowed_spin_blocks only for closed expressions (documented RuntimeError otherwise)."),
 }
 NA_REASON = "check not built yet in this round (planned, see DESIGN.md section 2)"
 
